@@ -4,10 +4,9 @@ import Proofs.C05Frame
 namespace C05Rows
 open FrameCrash RowsCrash
 
-def StepKnown (fx : Bool) {α : Type} (o : Step α) : Prop :=
-  ∀ s, o = .crash s → s.known = true ∧ fx = false
+def StepSafe {α : Type} (o : Step α) : Prop := ∀ s, o ≠ .crash s
 
-theorem tupleCell_known (fx : Bool) (k : Nat) (data : Bytes) : StepKnown fx (tupleCell fx k data) := by
+theorem tupleCell_safe (k : Nat) (data : Bytes) : StepSafe (tupleCell k data) := by
   induction k generalizing data with
   | zero => intro s h; simp [tupleCell] at h
   | succ k ih =>
@@ -18,45 +17,38 @@ theorem tupleCell_known (fx : Bool) (k : Nat) (data : Bytes) : StepKnown fx (tup
       split
       · exact ih _
       · split
-        · cases fx
-          · intro s h; simp at h; subst h; exact ⟨rfl, rfl⟩
-          · intro s h; simp at h
+        · intro s h; cases h
         · exact ih _
 
 /-- the destination slice expressions of scanColumn / Iter.Scan are in bounds as long as the
 destinations still to be filled fit: `i + Σ width ≤ n` -/
-theorem scanCols_known (fx : Bool) (n : Nat) (cols : List TI) (i : Nat) (buf : Bytes)
-    (h : i + (cols.map width).sum ≤ n) : StepKnown fx (scanCols fx n cols i buf) := by
+theorem scanCols_safe (n : Nat) (cols : List TI) (i : Nat) (buf : Bytes)
+    (h : i + (cols.map width).sum ≤ n) : StepSafe (scanCols n cols i buf) := by
   induction cols generalizing i buf with
   | nil => intro s hs; simp [scanCols] at hs
   | cons col rest ih =>
     unfold scanCols
     simp only [List.map_cons, List.sum_cons] at h
     split
-    · cases fx
-      · intro s hs; simp at hs; subst hs; exact ⟨rfl, rfl⟩
-      · intro s hs; simp at hs
+    · intro s hs; cases hs
     · simp only []
       split
       · intro s hs; cases hs
       · split
         · omega
         · split
-          · cases fx
-            · intro s hs; simp at hs; subst hs; exact ⟨rfl, rfl⟩
-            · intro s hs; simp at hs
+          · intro s hs; cases hs
           · split
             · rename_i es
               simp only [width] at h
               split
               · omega
-              · have ht := tupleCell_known fx es.length
+              · have ht := tupleCell_safe es.length
                 split
                 · exact ih _ _ (by omega)
                 · intro s hs; cases hs
                 · rename_i s' hs'
-                  intro s hs; cases hs
-                  exact ht _ s' hs'
+                  exact absurd hs' (ht _ s')
             · rename_i hnt
               have hw : width col = 1 := by
                 cases col with
@@ -65,33 +57,102 @@ theorem scanCols_known (fx : Bool) (n : Nat) (cols : List TI) (i : Nat) (buf : B
               rw [hw] at h
               exact ih _ _ (by omega)
 
-theorem scanLoop_known (fx : Bool) (cols : List TI) (n : Nat) (h : (cols.map width).sum ≤ n)
-    (todo done : Nat) (buf : Bytes) (s : RSite)
-    (hs : (scanLoop fx cols n todo done buf).crashSite = some s) : s.known = true ∧ fx = false := by
+theorem scanLoop_safe (cols : List TI) (n : Nat) (h : (cols.map width).sum ≤ n)
+    (todo done : Nat) (buf : Bytes) : (scanLoop cols n todo done buf).crashSite = none := by
   induction todo generalizing done buf with
-  | zero => simp [scanLoop, ROut.crashSite] at hs
+  | zero => simp [scanLoop, ROut.crashSite]
   | succ todo ih =>
-    unfold scanLoop at hs
-    split at hs
-    · simp [ROut.crashSite] at hs
-    · have hk := scanCols_known fx n cols 0 buf (by omega)
-      split at hs
-      · exact ih _ _ hs
-      · simp [ROut.crashSite] at hs
+    unfold scanLoop
+    split
+    · simp [ROut.crashSite]
+    · have hk := scanCols_safe n cols 0 buf (by omega)
+      split
+      · exact ih _ _
+      · simp [ROut.crashSite]
       · rename_i s' hs'
-        simp [ROut.crashSite] at hs
-        subst hs
-        exact hk s' hs'
+        exact absurd hs' (hk s')
 
-/-- row iteration over ANY body: whatever panics, panics at a known site (and only in the unchanged
-code), provided the metadata lists no more columns than it announces (true of every parsed frame:
-`C05Rows.parsed_meta_ok`) -/
-theorem scanAll_known (fx : Bool) (m : Meta) (hm : m.cols.length ≤ m.colCount) (numRows : Nat) (rest : Bytes) (s : RSite)
-    (hs : (scanAll fx m numRows rest).crashSite = some s) : s.known = true ∧ fx = false := by
-  unfold scanAll at hs
-  split at hs
-  · split at hs <;> simp [ROut.crashSite] at hs
-  · exact scanLoop_known fx m.cols (destLen m) (by unfold destLen; omega) numRows 0 rest s hs
+/-- row iteration over ANY body never panics, provided the metadata lists no more columns than it
+announces (true of every parsed frame: `C05Rows.parsed_meta_ok`) -/
+theorem scanAll_safe (m : Meta) (hm : m.cols.length ≤ m.colCount) (numRows : Nat) (rest : Bytes) :
+    (scanAll m numRows rest).crashSite = none := by
+  unfold scanAll
+  split
+  · split <;> simp [ROut.crashSite]
+  · exact scanLoop_safe m.cols (destLen m) (by unfold destLen; omega) numRows 0 rest
+
+/-! ### rows scanned vs bytes received (allocation of the row consumers) -/
+
+/-- one Scan call over `cols` consumes at least the 4 length bytes of every column -/
+theorem scanCols_consumes (n : Nat) (cols : List TI) (i : Nat) (buf b : Bytes)
+    (h : scanCols n cols i buf = .ok b) : b.length + 4 * cols.length ≤ buf.length := by
+  induction cols generalizing i buf with
+  | nil => simp [scanCols] at h; subst h; simp
+  | cons col rest ih =>
+    unfold scanCols at h
+    split at h
+    · cases h
+    · rename_i h4
+      simp only [] at h
+      split at h
+      · cases h
+      · split at h
+        · cases h
+        · split at h
+          · cases h
+          · have hb2 : (if signed32 (be (buf.take 4)) < 0 then buf.drop 4
+                else (buf.drop 4).drop (signed32 (be (buf.take 4))).toNat).length + 4 ≤ buf.length := by
+              split <;> simp <;> omega
+            split at h
+            · split at h
+              · cases h
+              · split at h
+                · have := ih _ _ h
+                  simp only [List.length_cons] at *; omega
+                · cases h
+                · cases h
+            · have := ih _ _ h
+              simp only [List.length_cons] at *; omega
+
+theorem scanLoop_rows (cols : List TI) (hc : cols ≠ []) (n : Nat) (todo done : Nat) (buf : Bytes) :
+    4 * (scanLoop cols n todo done buf).rows ≤ 4 * done + buf.length := by
+  induction todo generalizing done buf with
+  | zero => simp [scanLoop, ROut.rows]
+  | succ todo ih =>
+    unfold scanLoop
+    split
+    · simp only [ROut.rows]; omega
+    · split
+      · rename_i b hb
+        have hcons := scanCols_consumes n cols 0 buf b hb
+        have hl : 1 ≤ cols.length := by
+          cases cols with
+          | nil => exact absurd rfl hc
+          | cons a r => simp
+        have := ih (done + 1) b
+        omega
+      · simp only [ROut.rows]; omega
+      · simp only [ROut.rows]; omega
+
+/-- THE ROW-COUNT BOUND: however many rows the frame announces, a consumer gets through at most one row
+per 4 bytes of row set (given at least one described column; the harness keeps the destination list
+below `destCap`) -/
+theorem rows_scanned_le_body (m : Meta) (hc : m.cols ≠ []) (numRows : Nat) (rest : Bytes) :
+    4 * (scanAll m numRows rest).rows ≤ rest.length := by
+  unfold scanAll
+  split
+  · split <;> simp [ROut.rows]
+  · simpa using scanLoop_rows m.cols hc (destLen m) numRows 0 rest
+
+/-- the allocation counter of the row consumers is within the bound for EVERY announced row count -/
+theorem consumeUnits_le_bound (m : Meta) (hc : m.cols ≠ []) (numRows : Nat) (rest : Bytes) :
+    consumeUnits m numRows rest ≤ consumeBound m rest := by
+  have h := rows_scanned_le_body m hc numRows rest
+  unfold consumeUnits consumeBound
+  have : (scanAll m numRows rest).rows ≤ rest.length / 4 := by omega
+  have h2 : ((scanAll m numRows rest).rows + 1) * (destLen m + 1) ≤ (rest.length / 4 + 1) * (destLen m + 1) :=
+    Nat.mul_le_mul_right (destLen m + 1) (Nat.succ_le_succ this)
+  omega
 
 /-! ### what a parsed ROWS frame looks like: no more described columns than announced -/
 
@@ -125,8 +186,8 @@ theorem post_ite {α : Type} {Q : α → Prop} {c : Prop} [Decidable c] {p q : P
     (hp : Post Q p) (hq : Post Q q) : Post Q (if c then p else q) := by
   split <;> assumption
 
-theorem colLoop_len (fx : Bool) (g : Bool) (n : Nat) (acc : List TI) :
-    Post (fun l => l.length = n + acc.length) (colLoop fx g n acc) := by
+theorem colLoop_len (g : Bool) (n : Nat) (acc : List TI) :
+    Post (fun l => l.length = n + acc.length) (colLoop g n acc) := by
   induction n generalizing acc with
   | zero => unfold colLoop; exact post_pure (by simp)
   | succ n ih =>
@@ -139,21 +200,21 @@ theorem colLoop_len (fx : Bool) (g : Bool) (n : Nat) (acc : List TI) :
 
 def MetaOk (m : Meta) : Prop := m.cols.length ≤ m.colCount
 
-theorem metaTail_ok (fx : Bool) (flags colCount : Nat) : Post MetaOk (metaTail fx flags colCount) := by
+theorem metaTail_ok (flags colCount : Nat) : Post MetaOk (metaTail flags colCount) := by
   unfold metaTail
   refine post_bind_any (fun _ => ?_)
   refine post_ite (post_pure (by simp [MetaOk])) ?_
   refine post_bind_any (fun _ => ?_)
   refine post_bind_any (fun _ => ?_)
-  refine post_bind _ (colLoop_len fx _ colCount []) (fun cols hc => ?_)
+  refine post_bind _ (colLoop_len _ colCount []) (fun cols hc => ?_)
   refine post_bind_any (fun _ => ?_)
   exact post_pure (by simp [MetaOk] at *; omega)
 
-theorem parseResultMetadata_ok (fx : Bool) : Post MetaOk (parseResultMetadata fx) := by
+theorem parseResultMetadata_ok : Post MetaOk (parseResultMetadata ) := by
   unfold parseResultMetadata
   refine post_bind_any (fun _ => ?_)
   refine post_bind_any (fun _ => ?_)
-  exact post_ite post_fail (metaTail_ok fx _ _)
+  exact post_ite post_fail (metaTail_ok _ _)
 
 def FrameOk : Frame → Prop
   | .rows m _ => MetaOk m
@@ -171,35 +232,35 @@ macro "post_simple" : tactic => `(tactic| repeat (first
 theorem parseResultSchemaChange_ok (proto : Nat) : Post FrameOk (parseResultSchemaChange proto) := by
   unfold parseResultSchemaChange; post_simple
 
-theorem parseResultFrame_ok (fx : Bool) (proto : Nat) : Post FrameOk (parseResultFrame fx proto) := by
+theorem parseResultFrame_ok (proto : Nat) : Post FrameOk (parseResultFrame proto) := by
   have := parseResultSchemaChange_ok proto
   unfold parseResultFrame
   refine post_bind_any (fun kind => ?_)
   refine post_ite (post_pure trivial) ?_
   refine post_ite ?_ (by post_simple)
-  refine post_bind _ (parseResultMetadata_ok fx) (fun m hm => ?_)
+  refine post_bind _ (parseResultMetadata_ok ) (fun m hm => ?_)
   refine post_bind_any (fun n => ?_)
   exact post_ite post_fail (post_pure hm)
 
-theorem parseErrorFrame_ok (fx : Bool) (proto : Nat) : Post FrameOk (parseErrorFrame fx proto) := by
+theorem parseErrorFrame_ok (proto : Nat) : Post FrameOk (parseErrorFrame proto) := by
   unfold parseErrorFrame; post_simple
 
-theorem parseEventFrame_ok (fx : Bool) (proto : Nat) : Post FrameOk (parseEventFrame fx proto) := by
+theorem parseEventFrame_ok (proto : Nat) : Post FrameOk (parseEventFrame proto) := by
   have := parseResultSchemaChange_ok proto
   unfold parseEventFrame; post_simple
 
-theorem parseFrameP_ok (fx : Bool) (proto : Nat) (resp : Bool) (flags op : Nat) :
-    Post FrameOk (parseFrameP fx proto resp flags op) := by
-  have := parseResultFrame_ok fx proto
-  have := parseErrorFrame_ok fx proto
-  have := parseEventFrame_ok fx proto
+theorem parseFrameP_ok (proto : Nat) (resp : Bool) (flags op : Nat) :
+    Post FrameOk (parseFrameP proto resp flags op) := by
+  have := parseResultFrame_ok proto
+  have := parseErrorFrame_ok proto
+  have := parseEventFrame_ok proto
   unfold parseFrameP; post_simple
 
 /-- every ROWS frame that parseFrame returns describes at most as many columns as it announces -/
-theorem parsed_meta_ok (fx : Bool) (proto : Nat) (resp : Bool) (flags op : Nat) (body : Bytes)
-    (m : Meta) (n : Nat) (st : St) (h : parseFrame fx proto resp flags op body = .ok (.rows m n) st) :
+theorem parsed_meta_ok (proto : Nat) (resp : Bool) (flags op : Nat) (body : Bytes)
+    (m : Meta) (n : Nat) (st : St) (h : parseFrame proto resp flags op body = .ok (.rows m n) st) :
     m.cols.length ≤ m.colCount := by
-  have := parseFrameP_ok fx proto resp flags op { buf := body, alloc := 0 }
+  have := parseFrameP_ok proto resp flags op { buf := body, alloc := 0 }
   unfold parseFrame at h
   rw [h] at this
   exact this
@@ -211,9 +272,9 @@ theorem post_crashAt {α : Type} {Q : α → Prop} (s : Site) : Post Q (crashAt 
 
 /-- the nesting depth of a parsed type description is bounded by the recursion fuel, i.e. by the
 number of unread body bytes + 1: nothing else bounds it -/
-theorem typeInfo_depth (fx : Bool) : ∀ f : Nat,
-    Post (fun t => tiDepth t ≤ f) (readTypeInfo fx f) ∧
-    (∀ named n, Post (fun ts => tiDepthL ts ≤ f) (typeLoop fx f named n)) := by
+theorem typeInfo_depth : ∀ f : Nat,
+    Post (fun t => tiDepth t ≤ f) (readTypeInfo f) ∧
+    (∀ named n, Post (fun ts => tiDepthL ts ≤ f) (typeLoop f named n)) := by
   intro f
   induction f with
   | zero =>
@@ -256,9 +317,9 @@ theorem typeInfo_depth (fx : Bool) : ∀ f : Nat,
         refine post_bind _ (ihL named n) (fun ts hts => ?_)
         exact post_pure (by simp [tiDepthL]; omega)
 
-theorem typeInfoTop_depth (fx : Bool) (st : St) (t : TI) (st' : St) (h : readTypeInfoTop fx st = .ok t st') :
+theorem typeInfoTop_depth (st : St) (t : TI) (st' : St) (h : readTypeInfoTop st = .ok t st') :
     tiDepth t ≤ st.buf.length + 1 := by
-  have := (typeInfo_depth fx (st.buf.length + 1)).1 st
+  have := (typeInfo_depth (st.buf.length + 1)).1 st
   unfold readTypeInfoTop at h
   rw [h] at this
   exact this
